@@ -222,6 +222,10 @@ type fieldAccess struct {
 	// the write is made by a shared tail helper that is handed the receiver's own mutex and a pointer to the field and
 	// stores through the pointer inside its Lock…Unlock (`setCost(&e.mut, &e.cost, &new.cost)`): write-locked by construction
 	viaLockedHelper bool
+	// a method of a sync/atomic (or module atomic) typed field called on its address: lock-free reads are legitimate, and a
+	// write is safe in either lock mode — what it must not be is outside every critical section (a publication that races
+	// with an invalidation made under the write lock)
+	atomicObj bool
 }
 
 var lockedHelperCache = map[*ssa.Function][]int{}
@@ -298,6 +302,14 @@ func fieldAccesses(fn *ssa.Function) []fieldAccess {
 			for _, r := range *fa.Referrers() {
 				switch u := r.(type) {
 				case *ssa.Call:
+					// a method of the field's own type called on &recv.field (an atomic.Value, a sync.Map, one of the module's
+					// atomic wrappers, an embedded cache object): an access to the state the field holds; anything but a
+					// recognised reader counts as a write
+					if op, _ := mutexOp(u); op == "" && len(u.Call.Args) > 0 && u.Call.Args[0] == ssa.Value(fa) && !u.Call.IsInvoke() {
+						if sc := u.Call.StaticCallee(); sc != nil && sc.Signature.Recv() != nil {
+							out = append(out, fieldAccess{fn, u, name, !objectReader(sc.Name()), false, isAtomicType(fa.Type())})
+						}
+					}
 					// &recv.field handed to a locked-store helper together with &recv.<mutex>
 					if hp := lockedStoreHelper(progForLocks, u.Call.StaticCallee()); hp != nil {
 						mutOK := false
@@ -308,35 +320,35 @@ func fieldAccesses(fn *ssa.Function) []fieldAccess {
 						}
 						for _, di := range hp[1:] {
 							if mutOK && di < len(u.Call.Args) && u.Call.Args[di] == ssa.Value(fa) {
-								out = append(out, fieldAccess{fn, u, name, true, true})
+								out = append(out, fieldAccess{fn: fn, in: u, field: name, write: true, viaLockedHelper: true})
 							}
 						}
 					}
 				case *ssa.Store:
 					if u.Addr == ssa.Value(fa) {
-						out = append(out, fieldAccess{fn, u, name, true, false})
+						out = append(out, fieldAccess{fn: fn, in: u, field: name, write: true})
 					}
 				case *ssa.UnOp:
-					out = append(out, fieldAccess{fn, u, name, false, false})
+					out = append(out, fieldAccess{fn: fn, in: u, field: name})
 					// what is done with a loaded map counts as access to the field
 					if _, isMap := u.Type().Underlying().(*types.Map); isMap {
 						for _, rr := range *u.Referrers() {
 							switch m := rr.(type) {
 							case *ssa.MapUpdate:
-								out = append(out, fieldAccess{fn, m, name, true, false})
+								out = append(out, fieldAccess{fn: fn, in: m, field: name, write: true})
 							case *ssa.Lookup:
-								out = append(out, fieldAccess{fn, m, name, false, false})
+								out = append(out, fieldAccess{fn: fn, in: m, field: name})
 							case *ssa.Range:
-								out = append(out, fieldAccess{fn, m, name, false, false})
+								out = append(out, fieldAccess{fn: fn, in: m, field: name})
 								// the iteration itself (Next) happens later: find the Next instructions
 								for _, nr := range *m.Referrers() {
 									if nx, ok := nr.(*ssa.Next); ok {
-										out = append(out, fieldAccess{fn, nx, name, false, false})
+										out = append(out, fieldAccess{fn: fn, in: nx, field: name})
 									}
 								}
 							case ssa.CallInstruction:
 								if bi, ok := m.Common().Value.(*ssa.Builtin); ok {
-									out = append(out, fieldAccess{fn, m, name, bi.Name() == "delete", false})
+									out = append(out, fieldAccess{fn: fn, in: m, field: name, write: bi.Name() == "delete"})
 								}
 							}
 						}
@@ -433,6 +445,12 @@ func c19r1(c *Ctx) {
 				kind := "read"
 				if a.write {
 					need, kind = lkW, "write"
+				}
+				if a.atomicObj {
+					if !a.write {
+						continue // a lock-free atomic read
+					}
+					need, kind = lkR, "atomic write"
 				}
 				construct := fmt.Sprintf("%s.%s: %s of .%s @%s", tname, m.Name(), kind, a.field, valueName(a.in))
 				st := la.state[a.in]
@@ -606,6 +624,53 @@ func heldAtCallSites(p *Prog, m *ssa.Function, las map[*ssa.Function]*lockAnalys
 	return true, "helper: " + strings.Join(uniq(whys), " | ")
 }
 
+// isAtomicType: *T for a T of sync/atomic or of the module's atomic package.
+func isAtomicType(t types.Type) bool {
+	if pt, ok := t.Underlying().(*types.Pointer); ok {
+		t = pt.Elem()
+	}
+	n, ok := t.(*types.Named)
+	if !ok || n.Obj().Pkg() == nil {
+		return false
+	}
+	pp := n.Obj().Pkg().Path()
+	return pp == "sync/atomic" || pp == modPath+"/atomic"
+}
+
+// helperUnderLock: an unexported method without lock operations of its own, every call site of which (in methods of the same
+// type) holds the mutex — for writing, unless the helper only reads.
+func helperUnderLock(p *Prog, n *types.Named, m *ssa.Function, onlyReads bool) (bool, string) {
+	if m.Object() == nil || m.Object().Exported() {
+		return false, ""
+	}
+	las := map[*ssa.Function]*lockAnalysis{}
+	for _, x := range methodsOf(p, n) {
+		las[x] = analyseLocks(p, x, lkU)
+	}
+	if las[m] == nil || las[m].mutex != "" {
+		return false, ""
+	}
+	need := lkW
+	if onlyReads {
+		need = lkR
+	}
+	for _, a := range fieldAccesses(m) {
+		if a.write {
+			need = lkW
+		}
+	}
+	return heldAtCallSites(p, m, las, need, 0)
+}
+
+// objectReader: method names of state-holding field types that only read (sync/atomic, sync.Map, the module's atomic package).
+func objectReader(name string) bool {
+	switch name {
+	case "Load", "Get", "IsSet", "GetUint64", "Len", "Range", "String", "Value", "Has":
+		return true
+	}
+	return false
+}
+
 // c19r3: single critical section per MutexMap method; container results flow from one MutexMap call.
 func c19r3(c *Ctx) {
 	const rule = "C19-R3"
@@ -640,6 +705,8 @@ func c19r3(c *Ctx) {
 			c.OK(rule, FuncName(m), construct, c.P.Pos(m.Pos()), "1 locked region; all accesses to .values inside it")
 		} else if regions == 0 && len(fieldAccesses(m)) == 0 {
 			c.Triv(rule, FuncName(m), construct, c.P.Pos(m.Pos()), "no map access")
+		} else if held, why := helperUnderLock(c.P, mm, m, true); regions == 0 && held {
+			c.Triv(rule, FuncName(m), construct, c.P.Pos(m.Pos()), "a helper without a critical section of its own: "+why)
 		} else {
 			d := fmt.Sprintf("%d locked regions", regions)
 			if unlockedAccess != "" {
